@@ -23,14 +23,19 @@ func checkExistsThenPut(c *Ctx, rule string) {
 		{"putRawCredit", "existsCredit", "mined credit"},
 		{"putRawUnminedCredit", "existsRawUnminedCredit", "unconfirmed credit"},
 	}
+	// addCredit and the private parts it was split into: a put is guarded inside the part that performs it
+	parts := c.P.regionTop(fn)
 	for _, pr := range pairs {
-		puts := callsNamed(fn, pr.put)
+		var puts []*ssa.Call
+		for _, part := range parts {
+			puts = append(puts, callsNamed(part, pr.put)...)
+		}
 		if len(puts) == 0 {
 			c.Check(rule, "insert-guarded-by-same-store-lookup:"+pr.put, fn.Pos(), false, "addCredit no longer inserts through "+pr.put+" (undecided)")
 			continue
 		}
 		for _, put := range puts {
-			ok := !reachableAvoiding(fn, nil, put, func(from *ssa.BasicBlock, si int) bool {
+			ok := !reachableAvoiding(put.Parent(), nil, put, func(from *ssa.BasicBlock, si int) bool {
 				f := edgeFactOf(from, si)
 				return f != nil && f.Kind == "nil" && isResultOfCall(f.V, pr.lookup, -1)
 			})
